@@ -404,16 +404,17 @@ func product(sc *scenario, pols cedar.PolicyIterator) (map[string]*expected, int
 // one batch execution under a fault plan
 
 type plan struct {
-	kind     string // "none" | "cb-error" | "cb-cancel" | "pre-cancel" | "step-cancel"
-	k        int    // 1-based callback index for cb-*
-	step     uint64 // relative step for step-cancel
-	deadline bool
+	errFlavour int    // cb-error: 0 wrapped sentinel, 1 wraps context.Canceled of a foreign context, 2 wraps context.DeadlineExceeded, 3 bare sentinel
+	kind       string // "none" | "cb-error" | "cb-cancel" | "pre-cancel" | "step-cancel"
+	k          int    // 1-based callback index for cb-*
+	step       uint64 // relative step for step-cancel
+	deadline   bool
 }
 
 func (p plan) String() string {
 	switch p.kind {
 	case "cb-error", "cb-cancel":
-		return fmt.Sprintf("%s@k=%d deadline=%v", p.kind, p.k, p.deadline)
+		return fmt.Sprintf("%s@k=%d deadline=%v error-flavour=%d", p.kind, p.k, p.deadline, p.errFlavour)
 	case "step-cancel":
 		return fmt.Sprintf("step-cancel@+%d deadline=%v", p.step, p.deadline)
 	}
@@ -436,6 +437,21 @@ type outcome struct {
 }
 
 var errCallback = errors.New("simulated callback failure")
+
+// callbackError builds the error the callback fails with.  Whatever it wraps, it is the
+// callback's own failure: the batch call must return an error that Is errCallback.
+func callbackError(flavour int) error {
+	switch flavour {
+	case 1:
+		// e.g. the callback's own store timed out / was cancelled on a different context
+		return fmt.Errorf("store lookup: %w", errors.Join(errCallback, context.Canceled))
+	case 2:
+		return fmt.Errorf("store lookup: %w", errors.Join(context.DeadlineExceeded, errCallback))
+	case 3:
+		return errCallback
+	}
+	return fmt.Errorf("wrapped: %w", errCallback)
+}
 
 func execute(r *core.Run, sc *scenario, pols cedar.PolicyIterator, pl plan) outcome {
 	sim := r.Sim
@@ -461,7 +477,7 @@ func execute(r *core.Run, sc *scenario, pols cedar.PolicyIterator, pl plan) outc
 		switch pl.kind {
 		case "cb-error":
 			if n == pl.k {
-				return fmt.Errorf("wrapped: %w", errCallback)
+				return callbackError(pl.errFlavour)
 			}
 		case "cb-cancel":
 			if n == pl.k {
@@ -627,6 +643,9 @@ func (p Prop) Run(r *core.Run) *core.Violation {
 	for k := 1; k <= N; k++ {
 		for _, kind := range []string{"cb-error", "cb-cancel"} {
 			pl := plan{kind: kind, k: k, deadline: kind == "cb-cancel" && r.T.Bool()}
+			if kind == "cb-error" {
+				pl.errFlavour = r.T.Intn(4)
+			}
 			o := execute(r, sc, pols, pl)
 			r.Count("fault." + kind)
 			r.Obs(pl.String(), len(o.cbs), fmt.Sprint(o.ret))
